@@ -836,6 +836,16 @@ def configs(d, rng):
             return c
         return build
 
+    def illum_rgb(info):
+        # colour space "rgb": one scaling image PER CHANNEL, all different
+        c = d.IlluminationCorrection()
+        c.colorspace = "rgb"
+        n0, n1 = info["shape"][:2]
+        ramp = np.linspace(0, 1, n0 * n1).reshape(n0, n1)
+        c.local_scaling = [d.ScalarImage(1.0 + k * ramp, dimensions=[1.0, 1.0]) for k in (0.25, -0.5, 0.75)]
+        return c
+
+    reg("illumination(rgb)", illum_rgb, kinds=("array", "optical", "optical-series"), dtypes=("float64", "float32"), channels=(3,))
     reg("illumination", illum(False), kinds=("array", "optical", "optical-series"), dtypes=("float64", "float32"), channels=(3,))
     reg("illumination(neutral)", illum(True), kinds=("array", "optical", "optical-series"), dtypes=("float64", "float32", "uint8"),
         channels=(3,), neutral=True)
@@ -1094,6 +1104,7 @@ def oracle(ctx, d):
         for sig, what in check_heap_case(d, c):
             ctx.fail(sig, what, {"case": dict(c, heap_toy=True), "observed": what})
     ctx.cov["configs"] = [c["name"] for c in cfgl]
+    ctx.cov["classes_with_correct_array_series"] = sorted({type(x).__name__ for x in (call(c["build"], dict(shape=(24, 36, 3) if c["fixed_shape"] else ((4, 4, 4) if c["dims"] == 3 else (4, 4, 3)), dtype=c["dtypes"][0], p=[0.1, 0.2, 0.3])) for c in cfgl) if not isinstance(x, Raised) and hasattr(x, "correct_array_series")})
     ctx.cov["harness_skips"] = skipped
 
 
